@@ -153,7 +153,7 @@ func (ctx *checkerContext) isImmutableType(t types.Type) bool {
 		t = ptr.Elem()
 	}
 	named, ok := types.Unalias(t).(*types.Named)
-	if !ok || named.Obj().Pkg() == nil {
+	if !ok || util.DeclaringPackage(named) == nil {
 		return false
 	}
 	return ctx.immutableTypes.Contains(named.Obj().Pkg().Path(), named.Obj().Name())
@@ -245,7 +245,7 @@ func checkFieldAssignment(
 	}
 
 	typeName := named.Obj().Name()
-	pkg := named.Obj().Pkg()
+	pkg := util.DeclaringPackage(named)
 	if pkg == nil {
 		return nil
 	}
@@ -300,7 +300,7 @@ func checkIndexAssignment(
 	}
 
 	typeName := named.Obj().Name()
-	pkg := named.Obj().Pkg()
+	pkg := util.DeclaringPackage(named)
 	if pkg == nil {
 		return nil
 	}
@@ -377,7 +377,7 @@ func checkFieldIncDec(
 	}
 
 	typeName := named.Obj().Name()
-	pkg := named.Obj().Pkg()
+	pkg := util.DeclaringPackage(named)
 	if pkg == nil {
 		return nil
 	}
@@ -500,7 +500,7 @@ func checkCompoundLHS(
 	}
 
 	typeName := named.Obj().Name()
-	pkg := named.Obj().Pkg()
+	pkg := util.DeclaringPackage(named)
 	if pkg == nil {
 		return nil
 	}
